@@ -447,6 +447,14 @@ def _P(n, d):
 
 # fixed programs (run before the random ones): nested DAGs whose defaulted parameters are bound positionally
 CORPUS = [
+    # a nested DAG whose single return value is an INDEXED part of an inner result (tuple item / dict entry)
+    dict(name="p", params=[_P("a0", None)], funs=[_fun(0), _fun(1)],
+         stmts=[dict(op="sub", d=0, args=[["param", 0]], active=None), dict(op="sub", d=1, args=[["param", 0]], active=None), dict(op="call", f=0, args=[["var", 0, []], ["var", 1, []]], kwargs={}, active=None)],
+         ret=dict(shape="tuple", items=[["var", 0, []], ["var", 1, []], ["var", 2, []]]), fails=[], maxc=2, is_async=False,
+         subs=[dict(name="p_s0", params=[_P("a0", None)], funs=[_fun(10, "idx", truths=[True, False]), _fun(11)], stmts=[dict(op="call", f=0, args=[["param", 0]], kwargs={}, active=None)],
+                    ret=dict(shape="single", items=[["var", 0, [1]]]), subs=[], fails=[], maxc=2, is_async=False),
+               dict(name="p_s1", params=[_P("a0", None)], funs=[_fun(20, "dict", keys=[["k0", True], ["k1", False]]), _fun(21)], stmts=[dict(op="call", f=0, args=[["param", 0]], kwargs={}, active=None)],
+                    ret=dict(shape="single", items=[["var", 0, ["k1"]]]), subs=[], fails=[], maxc=2, is_async=False)]),
     # sub(v, on=True) whose node is flagged by `on`, embedded as sub(v, on, twz_active=gate): refused at build today; if it
     # is ever accepted the node runs only when BOTH flags are truthy
     dict(name="p", params=[_P("a0", None), _P("b0", None), _P("c0", None)], funs=[_fun(0), _fun(1)],
